@@ -145,6 +145,8 @@ structure Grid where
   w : Nat
   h : Nat
   cells : Array GCell
+  /-- row-major, exactly `w * h` cells (so that `set` followed by `get` needs no side condition) -/
+  hsize : cells.size = w * h
 
 namespace Grid
 
@@ -152,13 +154,16 @@ def get (g : Grid) (x y : Nat) : GCell :=
   if x < g.w ∧ y < g.h then g.cells.getD (y * g.w + x) {} else {}
 
 def set (g : Grid) (x y : Nat) (c : GCell) : Grid :=
-  if x < g.w ∧ y < g.h then { g with cells := g.cells.setIfInBounds (y * g.w + x) c } else g
+  if x < g.w ∧ y < g.h then
+    { g with cells := g.cells.setIfInBounds (y * g.w + x) c, hsize := by simp [g.hsize] }
+  else g
 
 /-- grid whose cell (x,y) is `f x y` -/
 def build (w h : Nat) (f : Nat → Nat → GCell) : Grid :=
-  { w := w, h := h, cells := ⟨(List.range (w * h)).map (fun i => f (i % w) (i / w))⟩ }
+  { w := w, h := h, cells := ⟨(List.range (w * h)).map (fun i => f (i % w) (i / w))⟩, hsize := by simp }
 
-def fill (w h : Nat) (c : GCell) : Grid := { w := w, h := h, cells := ⟨List.replicate (w * h) c⟩ }
+def fill (w h : Nat) (c : GCell) : Grid :=
+  { w := w, h := h, cells := ⟨List.replicate (w * h) c⟩, hsize := by simp }
 
 /-- cell `c` turned into a blank that keeps its pen (the surviving half of a destroyed wide glyph) -/
 def halfBlank (c : GCell) (stamp : Nat) : GCell := { c with runes := [], cont := false, stamp := stamp }
